@@ -60,7 +60,7 @@ class Model:
     def step(self, i, e):
         """returns expected codes (list) for session i"""
         st = self.sess[i]
-        if e == "@connect":
+        if e == "@connect" or e.startswith("@connect-as "):
             if self.limit is not None and self.used >= self.limit:
                 self.sess[i] = ("dead",)
                 return ["421"]
@@ -142,7 +142,9 @@ def build(hist, n, limit, chooser=None, explore_from=None, slow=False):
                 rig.collect()
             elif e == "@restart":
                 # server.close() with whatever is in flight, then the same server object is started again
-                rig.world.close_server(rig.server)
+                ok, _t = rig.world.close_server(rig.server)
+                if not ok:
+                    problems.append({"kind": "server-close-did-not-complete", "history": hist[:k + 1]})
                 rig.world.settle(0)
                 model.idle()
                 rig.world.start_server(rig.server)
@@ -318,6 +320,11 @@ RACES = [
     ("pipelined-quit-rst", 1, 1, [(0, "@connect"), (0, "SYST\r\nSYST\r\nQUIT!"), (0, "@rst")], 1),
     ("pipelined-quit-drop", 1, 1, [(0, "@connect"), (0, "SYST\r\nSYST\r\nQUIT!"), (0, "@drop")], 1),
     ("login-pipelined-quit-rst", 1, 1, [(0, "@connect"), (0, "USER alice"), (0, "PWD\r\nSYST\r\nNOOP\r\nQUIT!"), (0, "@rst")], 2),
+    # a peer that resets and comes back at once from the same address (host, port), then the server is shut down
+    ("reconnect-same-address-restart", 2, 2, [(0, "@connect"), (0, "USER alice"), (0, "@rst!"), (1, "@connect-as 0"),
+                                              (1, "USER alice!"), (-1, "@restart")], 2),
+    ("reconnect-same-address-quit", 2, 2, [(0, "@connect"), (0, "@rst!"), (1, "@connect-as 0"), (1, "USER alice"),
+                                           (1, "QUIT")], 2),
     ("relogin-race", 2, 2, [(0, "@connect"), (1, "@connect"), (0, "USER alice"), (0, "USER bob!"), (1, "USER alice")], 3),
     ("boom-while-user", 1, 1, [(0, "@connect"), (0, "USER bob!"), (0, "BOOM")], 1),
     # the same races with a user manager that suspends inside get_user / authenticate / notify_logout: the
@@ -360,7 +367,7 @@ def run_race(case, chooser):
             rig.world.settle(0)
             problems = [p for p in problems if p["kind"] != "admission-differs-from-model"]
             # counters may be compared only at the end of a race (the model is sequential)
-            problems = []
+            problems = [p for p in problems if p["kind"] == "server-close-did-not-complete"]
             problems += final_probe(rig, model, hist)
             bad = [t for r, t in cap.records if "Too many acquires" in t or "Too many releases" in t]
             if bad:
